@@ -51,8 +51,10 @@ PROP = dict(
                  "the last position or in the last two positions; non-zero unused trailing bits are accepted (Python accepts them too) and ignored",
                  "hosts are non-empty and colon-free, ports and default ports are in 0..65535; port 0 renders without ':' and parses back "
                  "to the default port",
-                 "escape_url must leave RFC 3986 unreserved characters literal (equivalently: equal urllib.parse.quote with safe='=&' plus "
-                 "'/' unless escape_slash) - this is what makes the design's mutant 'drop ~ from the safe set' observable",
+                 "escape_url: which of the permitted characters (unreserved, '=', '&', '/' unless escape_slash) are left literal is the escaper's "
+                 "policy - the statement asks for permitted output characters and an exact inverse; escaping more than RFC 3986 requires is counted "
+                 "(classes esc_url:* / escurl:*), not reported",
+                 "'throws invalid_argument' is satisfied by any type derived from std::invalid_argument (C++ handlers; the Python stage is given the base name)",
                  "escape_quotes does not escape backslashes, so its output is decoded back only for backslash-free inputs",
                  "netloc_fb: what render_netloc prints for the empty host is outside the round-trip clause and is not asserted; it is only used, made colon-free, as a host "
                  "like any other non-empty colon-free string (an empty derivation falls back to the whole text)",
